@@ -21,3 +21,6 @@ For EACH change deliver, in /tmp/seed-{pid}-out/<n>/ (n = 1, 2):
 How to run things: use `/venv/bin/python` (Python 3.12 with all deps). From the worktree root, `import breezy` resolves to the worktree. Run tests like `cd /tmp/seed-{pid} && /venv/bin/python -m pytest -q -p no:cacheprovider -x -n 4 breezy/tests/test_foo.py` (pytest-xdist is available; a test module is typically 1-60 s; do NOT run the whole suite, it takes 25+ minutes — pick the related modules, including the per_* scenario directories when relevant, with -n 8). Some tests fail on the unmodified tree for environment reasons; compare against the unmodified result (save and restore your change with `git diff > /tmp/seed-{pid}-out/x.diff; git checkout -- .; ...; git apply /tmp/seed-{pid}-out/x.diff` — NEVER use `git stash`: the stash is shared between all worktrees and other agents are working in parallel).
 
 Before finishing: make sure the worktree is left with NO uncommitted modifications (`git checkout -- .`), and that each patch.diff applies cleanly to the clean worktree and the demo behaves as stated in both states (re-verify this yourself). Keep your final answer short: for each change one paragraph (files/functions touched, why tests don't notice, what the demo does).""")
+print()
+print()
+print('Additional notes: (1) the per_* scenario test directories only run correctly through `/venv/bin/python -m breezy selftest --parallel=fork -s <module>` (run from the worktree root with PYTHONPATH set to the worktree), not through plain pytest. (2) Rust sources under crates/ and src/ CAN be rebuilt offline if you really need to (`cargo build --offline -p <crate>` takes 3-5 minutes; the Python extension crates are crates/*-py, and the built lib must be copied over the matching breezy/_*_rs*.so symlink in your worktree) but prefer Python-side changes. (3) Put the current working directory first on sys.path in your demo (sys.path.insert(0, os.getcwd())) so that it exercises the worktree and not the installed copy. (4) Never use `git stash` (the stash is shared between worktrees).')
